@@ -28,7 +28,7 @@ ASSUMPTIONS = [
 def plan(tier):
     if tier == "quick":
         return {"hostile": 1500, "steered": 700, "start": 300}
-    return {"hostile": 50000, "steered": 25000, "start": 10000}
+    return {"hostile": 120000, "steered": 60000, "start": 25000}
 
 
 def floors(tier):
